@@ -514,6 +514,9 @@ def decompress_destripe_cbin(
         _sr = spikeglx.Reader(sr_file, **reader_kwargs)
         _saturation = np.load(file_saturation, mmap_mode="r+")
         n_batch = int(np.ceil(i_chunk * CHUNK_SIZE / NBATCH))
+        # on short recordings with many processes, a worker must not start beyond the last batch of the recording
+        n_batch_last = int(np.ceil(max(_sr.ns - NBATCH, 0) / (NBATCH - SAMPLES_TAPER * 2)))
+        n_batch = min(n_batch, n_batch_last)
         first_s = (NBATCH - SAMPLES_TAPER * 2) * n_batch
 
         # Find the maximum sample for each chunk
